@@ -152,7 +152,9 @@ static inline void __verif_trap(void)
 
 #ifdef VERIF_SEQ
 #define __VERIF_LOADVAL(p) ((_os_atomic_basetypeof(p))*(p))
+#define __VERIF_SET_LOAD_MO(m) ((void)0)
 #else
+#define __VERIF_SET_LOAD_MO(m) (__verif_last_load_mo = (m))
 /* pointer-valued shared location (e.g. an MPSC tail): the harness may declare that it holds NULL
  * or one valid node; the loaded value is then that object's pointer (a pointer forged from an
  * integer has no object identity in CBMC) */
@@ -168,7 +170,7 @@ static inline void __verif_trap(void)
 
 #define os_atomic_load(p, m) ({ \
 		_os_atomic_basetypeof(p) __vl = __VERIF_LOADVAL(p); \
-		__verif_last_load_mo = VMO_##m; \
+		__VERIF_SET_LOAD_MO(VMO_##m); \
 		if (VMO_##m != VMO_relaxed && VMO_##m != VMO_dependency) __verif_event(EV_LOAD, VMO_##m, (p), (unsigned long long)__vl, 0); \
 		__vl; })
 #define os_atomic_store(p, v, m) ({ \
